@@ -190,6 +190,7 @@ class Continuous(AgentSchedulingComponent):
         # find at most `n_slots`
         loop_core_idx = 0
         loop_gpu_idx  = 0
+        gpu_shares    = dict()  # GPU shares handed out in this call
         while len(slots) < n_slots:
 
             node_idx  = node['index']
@@ -259,9 +260,15 @@ class Continuous(AgentSchedulingComponent):
                 for gpu_idx,gpu_occ in enumerate(node['gpus'][loop_gpu_idx:],
                                                               loop_gpu_idx):
 
-                    if gpus_per_slot <= rpc.BUSY - gpu_occ:
+                    # unusable GPUs are skipped, and shares already handed to
+                    # other slots of this task count against the GPU
+                    if gpu_occ != rpc.DOWN and \
+                       gpus_per_slot <= rpc.BUSY - gpu_occ \
+                                                 - gpu_shares.get(gpu_idx, 0.0):
                         slot['gpus'].append(RO(index=gpu_idx,
                                                occupation=gpus_per_slot))
+                        gpu_shares[gpu_idx] = gpus_per_slot \
+                                            + gpu_shares.get(gpu_idx, 0.0)
                         break
                     else:
                         loop_gpu_idx = gpu_idx + 1
